@@ -10,12 +10,17 @@ pub struct Vs(pub u32);
 impl VersionSet for Vs { type V = u32; }
 
 pub fn gen_case(rng: &mut Rng) -> Vec<String> {
-    let n_ops = match rng.below(4) { 0 => rng.range(5, 40), 1 => rng.range(100, 300), 2 => rng.range(300, 700), _ => rng.range(20, 150) };
-    let vocab = rng.range(3, 400);
+    // 1/4 "deep" cases: thousands of operations biased to one arena with a large vocabulary, so that an arena grows
+    // well past its first chunk (128 slots) while references into the later chunks are held
+    let deep = rng.chance(1, 4);
+    let focus = rng.below(3);
+    let n_ops = if deep { rng.range(600, 2500) } else { match rng.below(4) { 0 => rng.range(5, 40), 1 => rng.range(100, 300), 2 => rng.range(300, 700), _ => rng.range(20, 150) } };
+    let vocab = if deep { rng.range(1000, 6000) } else { rng.range(3, 400) };
     let mut lines = Vec::new();
     let (mut n_str, mut n_name, mut n_solv, mut n_vs, mut n_union) = (0u64, 0u64, 0u64, 0u64, 0u64);
     for _ in 0..n_ops {
-        let l = match rng.below(16) {
+        let roll = if deep && rng.chance(2, 3) { match focus { 0 => 0, 1 => 3, _ => 7 } } else { rng.below(16) };
+        let l = match roll {
             0 | 1 | 2 => { n_str += 1; format!("str w{}", rng.below(vocab)) }
             3 | 4 | 5 => { n_name += 1; format!("name w{}", rng.below(vocab)) }
             6 => format!("lookup w{}", rng.below(vocab)),
@@ -45,7 +50,7 @@ pub fn run_case(lines: &[String]) -> Vec<String> {
         let r = catch_unwind(AssertUnwindSafe(|| -> String {
             match t[0] {
                 "str" => { let id = pool.intern_string(t[1]); let s = pool.resolve_string(id); held_str.push((id.0, s.as_ptr() as usize, s.to_string())); format!("id {}", id.0) }
-                "name" => { let id = pool.intern_package_name(t[1].to_string()); let s = pool.resolve_package_name(id); held_name.push((id.0, s.as_ptr() as usize, s.clone())); format!("id {}", id.0) }
+                "name" => { let id = pool.intern_package_name(t[1].to_string()); let s = pool.resolve_package_name(id); held_name.push((id.0, s as *const String as usize, s.clone())); format!("id {}", id.0) }
                 "lookup" => match pool.lookup_package_name(&t[1].to_string()) { Some(id) => format!("id {}", id.0), None => "id -".into() },
                 "solv" => { let id = pool.intern_solvable(NameId(t[1].parse().unwrap()), t[2].parse().unwrap()); let s = pool.resolve_solvable(id); held_solv.push((id.0, s as *const _ as usize, (s.name.0, s.record))); format!("id {}", id.0) }
                 "vs" => format!("id {}", pool.intern_version_set(NameId(t[1].parse().unwrap()), Vs(t[2].parse().unwrap())).0),
@@ -58,7 +63,7 @@ pub fn run_case(lines: &[String]) -> Vec<String> {
                 "check-stable" => {
                     let mut ok = true;
                     for (id, addr, s) in &held_str { let r = pool.resolve_string(StringId(*id)); ok &= r.as_ptr() as usize == *addr && r == s; }
-                    for (id, addr, s) in &held_name { let r = pool.resolve_package_name(NameId(*id)); ok &= r.as_ptr() as usize == *addr && r == s; }
+                    for (id, addr, s) in &held_name { let r = pool.resolve_package_name(NameId(*id)); ok &= r as *const String as usize == *addr && r == s; }
                     for (id, addr, (n, rec)) in &held_solv { let r = pool.resolve_solvable(SolvableId(*id)); ok &= r as *const _ as usize == *addr && r.name.0 == *n && r.record == *rec; }
                     format!("stable {}", ok as u8)
                 }
